@@ -932,6 +932,7 @@ walk_descents(cholmod_sparse *AtA_F,
 	int i, j=-2, k;
 	pthread_t *threads;
 	pthread_attr_t thread_attr;
+	cholmod_common *worker_commons;
 	descent_trial *descent_trials;
 				
 	nF = *nF_;
@@ -1008,6 +1009,17 @@ walk_descents(cholmod_sparse *AtA_F,
 		memcpy(&descent_trials[i], &descent_trials[0],
 		    sizeof(descent_trial));
 		descent_trials[i].id = i;
+	}
+	/*
+	 * A cholmod_common must not be used by several threads at once
+	 * (every CHOLMOD call updates its status and memory statistics),
+	 * so each worker gets a workspace of its own.
+	 */
+	worker_commons = (cholmod_common*)malloc(
+	    n_threads*sizeof(cholmod_common));
+	for (i = 0; i < n_threads; i++) {
+		cholmod_l_start(&worker_commons[i]);
+		descent_trials[i].c = &worker_commons[i];
 	}
 							
 	n_blocks = (int)ceil(n_alpha/((double)(n_threads)));
@@ -1136,8 +1148,10 @@ walk_descents(cholmod_sparse *AtA_F,
 			free(descent_trials[k].H1);
 		if (descent_trials[k].x_c)
 			cholmod_l_free_dense(
-			    &(descent_trials[k].x_c), c);
+			    &(descent_trials[k].x_c), descent_trials[k].c);
+		cholmod_l_finish(&worker_commons[k]);
 	}
+	free(worker_commons);
 
 	/* Clean up pthreads-related detritus */
 	pthread_cond_destroy(&cv);
